@@ -6,7 +6,7 @@ Open Scope N_scope.
 Definition one_group (q : quirks) (cache : N) : config :=
   {| cf_q := q; cf_kgf := fun _ => 0; cf_start := 0; cf_size := 1; cf_cache := cache; cf_srids := [0] |}.
 Definition model_out (q : quirks) (cache : N) (ops : list op) := fst (run (one_group q cache) ops (sys_new (one_group q cache) [])).
-Definition spec_out (ops : list op) := fst (spec_run [0] ops (spec_new [0] [])).
+Definition spec_out (ops : list op) := map fst (fst (spec_run [0] ops [] (spec_new [0] []))).
 
 Definition k1 : bytes := [107].
 Definition maxt : Z := (2 ^ 63 - 1)%Z.
@@ -37,3 +37,11 @@ Lemma pre_epoch_witness :
   model_out quirks_now 1000 h_pre_epoch = [[]; []; [(k1, 5%Z); (k1, (-5)%Z)]] /\
   spec_out h_pre_epoch = [[]; [(k1, (-5)%Z)]; [(k1, 5%Z)]].
 Proof. vm_compute. repeat split. Qed.
+
+(* a consumer that stops after two of four due timers (seeded bug C10r2-1 = yield before delete: the second one would be
+   handed out again): the current code hands out 10, 20, then 30, 40 *)
+Definition h_partial : list op :=
+  map (fun t => SetTimer k1 t) [10; 20; 30; 40]%Z ++ [AdvancePartial 0 100%Z 2 []; Advance 0 100%Z; Restore; Advance 0 maxt].
+Lemma partial_witness :
+  model_out quirks_now 40 h_partial = [[(k1, 10%Z); (k1, 20%Z)]; [(k1, 30%Z); (k1, 40%Z)]; []].
+Proof. vm_compute. reflexivity. Qed.
